@@ -12,6 +12,8 @@
 //        flags: 1 pre-populated target, 2 barrier before serialize (otherwise the inserts
 //        are still pending), 4 strings may contain NUL, 8 only rank 0 inserts, 16 non-empty
 //        default value, 32 short alphabet (many duplicates / shared prefixes), 64 directed: exactly the keys "a\\0b" and "a\\0c",
+//        8192 thousands of dependent pairs (insert k; erase k / insert k v1; insert k v2) per rank pending at serialize,
+//        kind cset2: two counting_sets alive, both with un-flushed inserts at serialize and at deserialize (4096: source first),
 //        1024 operations issued on the TARGET right before deserialize, no barrier in between,
 //        128 reused prefix: a different container is serialized to the same prefix first (512: a tiny one instead of a
 //        big one; 256: its files are also planted at rank indices size..2*size-1 plus one unparsable file)
@@ -355,6 +357,27 @@ static int run_ser_t(ygm::comm& world, uint64_t seed, long nitems, int flags, Ct
         std::string k = mine.below(2) ? pool[mine.below(pool.size())] : gen_str(mine, flags);
         insert_one(a, k, mine.below(1000)); ++my_inserts;
       }
+    if (flags & 8192) {
+      // dependent pairs of one issuer on one key, issued right before serialize: insert k; erase k  /  insert k v1; insert k v2.
+      // Per-issuer order must be kept by the delivery: no erased key, no first value may be in the image.
+      const long np = 2500;
+      const std::string me = std::to_string(world.rank());
+      for (long i = 0; i < np; ++i) {
+        std::string ke = "erased-" + me + "-" + std::to_string(i), ko = "over-" + me + "-" + std::to_string(i);
+        if constexpr (std::is_same_v<A, SSet> || std::is_same_v<A, SMSet>) { a.async_insert(ke); a.async_erase(ke); }
+        else if constexpr (std::is_same_v<A, SMMap>) { a.async_insert(ke, "first"); a.async_erase(ke); }
+        else if constexpr (std::is_same_v<A, SMap>) {
+          if (i % 20 == 0) { a.async_insert(ko, "first"); a.async_insert(ko, "second"); hc::out("ins " + hex(ko) + ":" + hex("second")); }
+          else { a.async_insert(ke, "first"); a.async_erase(ke); }
+        } else if constexpr (std::is_same_v<A, CMap>) {
+          if (i % 20 == 0) { a.async_insert(ko, 1); a.async_insert(ko, 2); hc::out("ins " + hex(ko) + ":2"); }
+          else { a.async_insert(ke, 1); a.async_erase(ke); }
+        } else if constexpr (std::is_same_v<A, DMap>) {
+          if (i % 20 == 0) { a.async_insert(ko, 1.0); a.async_insert(ko, 2.0); hc::out("ins " + hex(ko) + ":" + hex(bits_be(2.0))); }
+          else { a.async_insert(ke, 1.0); a.async_erase(ke); }
+        }
+      }
+    }
     if (flags & 2) world.barrier();
     a.serialize(fname);            // otherwise: the inserts above are still pending here
     if (fs::exists(fname + std::to_string(world.rank()))) hc::out("file " + hex(slurp(fname + std::to_string(world.rank()))));
@@ -402,6 +425,52 @@ static int run_ser_t(ygm::comm& world, uint64_t seed, long nitems, int flags, Ct
   return 0;
 }
 
+// two counting_sets of one type alive on one communicator, BOTH with inserts still in their count cache when serialize /
+// deserialize reach their barrier (flag 4096: the source fills its cache first, otherwise the target does)
+static int run_cset2(ygm::comm& world, uint64_t seed, long nitems, int flags) {
+  std::string fname = tmpdir() + "/img.";
+  hc::rng mine(seed * 1000003ULL + 7919ULL * (uint64_t)world.rank() + 1);
+  hc::rng shared(seed ^ 0x5eedULL);
+  hc::rng pr(seed + 4242 + 17 * (uint64_t)world.rank());
+  std::vector<std::string> pool;
+  for (long i = 0; i < nitems; ++i) pool.push_back(gen_str(shared, flags));
+  SCSet t(world);
+  SCSet s(world);
+  size_t my_inserts = 0;
+  auto fill_t = [&](int k) { for (int i = 0; i < k; ++i) t.async_insert((i % 2 && !pool.empty()) ? pool[pr.below(pool.size())] : "old-pending" + gen_str(pr, 0)); };
+  auto fill_s = [&]() {
+    if (!(flags & 8) || world.rank0())
+      for (long i = 0; i < nitems; ++i) { insert_one(s, mine.below(2) ? pool[mine.below(pool.size())] : gen_str(mine, flags), 0); ++my_inserts; }
+  };
+  if (flags & 4096) { fill_s(); fill_t(6); } else { fill_t(6); fill_s(); }
+  s.serialize(fname);              // both caches are non-empty here
+  if (fs::exists(fname + std::to_string(world.rank()))) hc::out("file " + hex(slurp(fname + std::to_string(world.rank()))));
+  else hc::out("nofile");
+  dump(s, "a");
+  hc::out("cursor-expected " + std::to_string(my_inserts));
+  world.cf_barrier();
+  if (world.rank0()) {
+    std::vector<std::string> names;
+    for (auto& e : fs::directory_iterator(tmpdir())) { std::string n = e.path().filename().string(); if (n.rfind("img.", 0) == 0) names.push_back(n); }
+    std::sort(names.begin(), names.end());
+    std::string l = "names"; for (auto& n : names) l += " " + hex(n); hc::out(l);
+  }
+  world.cf_barrier();
+  // again both caches non-empty, this time at deserialize's barrier
+  if (flags & 4096) { s.async_insert("\x03late" + std::to_string(world.rank())); fill_t(4); } else { fill_t(4); s.async_insert("\x03late" + std::to_string(world.rank())); }
+  t.deserialize(fname);
+  dump(t, "b");
+  world.cf_barrier();
+  // both containers must keep counting: one more insert per rank into each
+  t.async_insert("\x02marker" + std::to_string(world.rank()));
+  s.async_insert("\x02marker" + std::to_string(world.rank()));
+  dump(t, "m");
+  world.cf_barrier();
+  dump(s, "ms");
+  world.cf_barrier();
+  return 0;
+}
+
 static int run_ser(ygm::comm& world, int argc, char** argv) {
   std::string kind = argv[2]; uint64_t seed = strtoull(argv[3], 0, 10); long n = atol(argv[4]); int flags = atoi(argv[5]);
   std::string dv = (flags & 16) ? std::string("d\"v\\\x01\xff") : std::string();
@@ -411,6 +480,7 @@ static int run_ser(ygm::comm& world, int argc, char** argv) {
   if (kind == "multiset") return run_ser_t<SMSet, SMSet>(world, seed, n, flags);
   if (kind == "bag") return run_ser_t<SBag, SBag>(world, seed, n, flags);
   if (kind == "cset") return run_ser_t<SCSet, SCSet>(world, seed, n, flags);
+  if (kind == "cset2") return run_cset2(world, seed, n, flags);
   // large counts: written by a map<string,size_t> (same map_impl image), read by a counting_set
   if (kind == "bagd") return run_ser_t<DBag, DBag>(world, seed, n, flags);
   if (kind == "bagpd") return run_ser_t<PBag, PBag>(world, seed, n, flags);
